@@ -1,11 +1,274 @@
+/-
+Oracle topic c10: the registry specification `Reg` and the implementation model `Impl`
+(Wz.Model.Registry) behind the line protocol.
+
+  c10 new <sid> <cfg>                 fresh Reg + Impl pair (cfg = 5 bits: fixF8 fixF9 atomicClose atomicRtClose notifierAtRegister)
+  c10 op <sid> <op>                   run one operation sequentially on both; answer "<reg-result> <impl-result>"
+  c10 dump <sid>                      effects of the Impl: "h:name:closed:notified:fscloses;..."
+  c10 drop <sid>
+  c10 exec <cfg> <sched> T <op>.. T <op>..   run the threads' programs on Impl under the given schedule
+                                      (comma separated thread numbers; then round-robin until all are done)
+                                      answer "<results thread0>|<results thread1>|... # <dump>"
+  c10 check <machine> <cfg> <budget> <hop>...   is the recorded concurrent history producible?
+        machine = reg : linearizability w.r.t. the atomic specification (WGL-style search, one
+                        linearization point per operation between invocation and response)
+        machine = impl: producible by the implementation model (every atomic action of an operation
+                        between its invocation and response)
+        hop = thread,inv,resp,<result>,<op>     answer "ok <nodes>" | "fail <nodes>" | "unknown <nodes>"
+
+  op tokens:   inst,h,name,none|bin|host   look,name   comp   hcomp,0|1   close,h,code   rtclose,code   isclosed,h
+  results:     ok dup closed found,h none isclosed,0|1 panic bad
+-/
 import Oracle.Util
+import Wz.Model.Registry
+import Std.Data.HashSet
 namespace Oracle.C10
-open Oracle
+open Oracle Wz.Model.Registry
 
-/-- Topic state (stub: no model behind this topic yet). -/
-abbrev St := Unit
-def init : St := ()
+def parseCfg (s : String) : Option Cfg :=
+  match s.toList.map (fun c => c == '1') with
+  | [a, b, c, d, e] => some ⟨a, b, c, d, e⟩
+  | _ => none
 
-def step (st : St) (_args : List String) : St × String := (st, "bad-op")
+def parsePre (s : String) : Option Pre :=
+  if s == "none" then some .none else if s == "bin" then some .bin else if s == "host" then some .host else none
+
+def parseOpToks : List String → Option Op
+  | ["inst", h, n, p] => do
+    let h ← parseNat h; let n ← parseNat n; let p ← parsePre p
+    pure (.instantiate h n p)
+  | ["look", n] => (parseNat n).map .lookup
+  | ["comp"] => some .compile
+  | ["hcomp", f] => (parseBool f).map .hostCompile
+  | ["close", h, c] => do
+    let h ← parseNat h; let c ← parseNat c
+    pure (.closeModule h c)
+  | ["rtclose", c] => (parseNat c).map .closeRuntime
+  | ["isclosed", h] => (parseNat h).map .isClosed
+  | _ => none
+
+def parseOp (s : String) : Option Op := parseOpToks (s.splitOn ",")
+
+def parseResToks : List String → Option Res
+  | ["ok"] => some .ok
+  | ["dup"] => some .errDup
+  | ["closed"] => some .errClosed
+  | ["found", h] => (parseNat h).map .found
+  | ["none"] => some .notFound
+  | ["isclosed", b] => (parseBool b).map .closedIs
+  | ["panic"] => some .panic
+  | ["bad"] => some .bad
+  | _ => none
+
+def showRes : Res → String
+  | .ok => "ok" | .errDup => "dup" | .errClosed => "closed" | .found h => s!"found,{h}"
+  | .notFound => "none" | .closedIs b => s!"isclosed,{b2s b}" | .panic => "panic" | .bad => "bad"
+
+def insertSorted (i : Inst) : List Inst → List Inst
+  | [] => [i]
+  | j :: js => if i.h ≤ j.h then i :: j :: js else j :: insertSorted i js
+
+def dumpImpl (s : Impl) : String :=
+  let is := s.insts.foldl (fun acc i => insertSorted i acc) []
+  let one (i : Inst) : String :=
+    let c := match i.closed with | none => "-" | some c => toString c
+    let n := if i.notified.isEmpty then "-" else "+".intercalate (i.notified.map toString)
+    s!"{i.h}:{i.name}:{c}:{n}:{i.fsCloses}"
+  if is.isEmpty then "-" else ";".intercalate (is.map one)
+
+/-! ### history checking -/
+
+structure HOp where
+  thread : Nat
+  inv : Nat
+  resp : Nat
+  op : Op
+  res : Res
+deriving Inhabited
+
+def parseHOp (s : String) : Option HOp :=
+  match s.splitOn "," with
+  | t :: i :: r :: rest => do
+    let t ← parseNat t; let i ← parseNat i; let r ← parseNat r
+    -- result tokens: 1 or 2
+    match rest with
+    | a :: more =>
+      let two := a == "found" || a == "isclosed"
+      let (rt, ot) := if two then ([a] ++ more.take 1, more.drop 1) else ([a], more)
+      let res ← parseResToks rt
+      let op ← parseOpToks ot
+      pure ⟨t, i, r, op, res⟩
+    | [] => none
+  | _ => none
+
+/-- A machine: where an operation starts and one atomic action. -/
+structure Machine (σ : Type) where
+  start : Op → Pc
+  step : σ → Op → Pc → σ × Pc
+  /-- projection used as memoisation key: forgets what cannot influence any later result -/
+  norm : σ → σ
+  /-- actions that cannot influence (or be influenced by) another thread's results: taken eagerly -/
+  invisible : Pc → Bool
+
+/-- Results depend only on: which instances exist, their names, whether closed; list; names; rtClosed. -/
+def normImpl (s : Impl) : Impl :=
+  { s with insts := s.insts.map (fun i => { i with closed := i.closed.map (fun _ => 0), notifier := false,
+                                                   sys := false, notified := [], fsCloses := 0 }),
+           rtClosed := s.rtClosed.map (fun _ => 0) }
+
+def invisibleImpl : Pc → Bool
+  | .fCas _ => true | .fRes _ => true | .mRes => true | .iNote => true | _ => false
+
+def implMachine (cfg : Cfg) : Machine Impl := ⟨startPc cfg, stepOp cfg, normImpl, invisibleImpl⟩
+
+/-- The specification as a one-action machine: the single action is the linearization point. -/
+def regMachine : Machine Reg :=
+  ⟨fun _ => .look, fun r op pc => match pc with
+    | .done x => (r, .done x)
+    | _ => let (r1, x) := r.step op; (r1, .done x), id, fun _ => false⟩
+
+structure SState (σ : Type) [BEq σ] [Hashable σ] where
+  vis : Std.HashSet (List Nat × List Pc × σ)
+  nodes : Nat
+
+/-- Depth-first search with memoisation over schedules. `prog[t]` = index of thread t's current
+operation, `pcs[t]` its pc. Thread t may act iff no other thread's current (unfinished) operation
+responded before t's current operation was invoked. -/
+partial def search {σ : Type} [BEq σ] [Hashable σ] (M : Machine σ) (ops : Array (Array HOp)) (budget : Nat)
+    (st : σ) (prog : Array Nat) (pcs : Array Pc) (S : SState σ) : Option Bool × SState σ :=
+  let T := ops.size
+  if (List.range T).all (fun t => prog[t]! ≥ ops[t]!.size) then (some true, S) else
+  let key := (prog.toList, pcs.toList, M.norm st)
+  if S.vis.contains key then (some false, S) else
+  if S.nodes ≥ budget then (none, S) else
+  let S := { vis := S.vis.insert key, nodes := S.nodes + 1 }
+  let enabled (t : Nat) : Bool :=
+    prog[t]! < ops[t]!.size &&
+    (let o := ops[t]![prog[t]!]!
+     !(List.range T).any (fun u => u != t && prog[u]! < ops[u]!.size && (ops[u]![prog[u]!]!).resp < o.inv))
+  let cands := (List.range T).filter enabled
+  -- eager: an enabled thread at an invisible action moves alone
+  let cands := match cands.find? (fun t => M.invisible pcs[t]!) with
+    | some t => [t]
+    | none =>
+      -- heuristic order: the operation that responded first is tried first
+      let ins (t : Nat) (l : List Nat) : List Nat :=
+        let r := (ops[t]![prog[t]!]!).resp
+        let rec go : List Nat → List Nat
+          | [] => [t]
+          | u :: us => if r ≤ (ops[u]![prog[u]!]!).resp then t :: u :: us else u :: go us
+        go l
+      cands.foldr ins []
+  let rec loop (ts : List Nat) (S : SState σ) (unknown : Bool) : Option Bool × SState σ :=
+    match ts with
+    | [] => (if unknown then none else some false, S)
+    | t :: rest =>
+    let o := ops[t]![prog[t]!]!
+    let (st1, pc1) := M.step st o.op pcs[t]!
+    match pc1 with
+    | .done r =>
+      if r == o.res then
+        let prog1 := prog.set! t (prog[t]! + 1)
+        let pcs1 :=
+          if prog1[t]! < ops[t]!.size then pcs.set! t (M.start (ops[t]![prog1[t]!]!).op) else pcs.set! t (.done .ok)
+        match search M ops budget st1 prog1 pcs1 S with
+        | (some true, S) => (some true, S)
+        | (some false, S) => loop rest S unknown
+        | (none, S) => loop rest S true
+      else loop rest S unknown
+    | _ =>
+      match search M ops budget st1 prog (pcs.set! t pc1) S with
+      | (some true, S) => (some true, S)
+      | (some false, S) => loop rest S unknown
+      | (none, S) => loop rest S true
+  loop cands S false
+
+def insertByInv (o : HOp) : List HOp → List HOp
+  | [] => [o]
+  | p :: ps => if o.inv ≤ p.inv then o :: p :: ps else p :: insertByInv o ps
+
+def checkHistory {σ : Type} [BEq σ] [Hashable σ] (M : Machine σ) (init : σ) (h : List HOp) (budget : Nat) : String :=
+  let T := h.foldl (fun m o => max m (o.thread + 1)) 0
+  let ops : Array (Array HOp) := (Array.range T).map (fun t =>
+    ((h.filter (·.thread == t)).foldl (fun acc o => insertByInv o acc) []).toArray)
+  let prog := (Array.range T).map (fun _ => 0)
+  let pcs := (Array.range T).map (fun t => if ops[t]!.size > 0 then M.start (ops[t]![0]!).op else .done .ok)
+  let (r, S) := search M ops budget init prog pcs { vis := {}, nodes := 0 }
+  match r with
+  | some true => s!"ok {S.nodes}"
+  | some false => s!"fail {S.nodes}"
+  | none => s!"unknown {S.nodes}"
+
+/-! ### schedule execution -/
+
+def splitThreads (toks : List String) : List (List String) :=
+  let acc := toks.foldl (fun (acc : List (List String)) tok =>
+    if tok == "T" then [] :: acc else
+    match acc with
+    | [] => []
+    | p :: ps => (p ++ [tok]) :: ps) []
+  acc.reverse
+
+def allDone (c : Conc) : Bool := c.threads.all (fun th => th.cur.isNone && th.todo.isEmpty)
+
+def finish (cfg : Cfg) : Nat → Conc → Conc
+  | 0, c => c
+  | n + 1, c =>
+    if allDone c then c else
+    finish cfg n ((List.range c.threads.length).foldl (fun c t => c.step cfg t) c)
+
+/-! ### the topic -/
+
+structure Sess where
+  cfg : Cfg
+  reg : Reg
+  impl : Impl
+
+abbrev St := List (Nat × Sess)
+def init : St := []
+
+def step (st : St) (args : List String) : St × String :=
+  match args with
+  | ["new", sid, cfg] =>
+    match parseNat sid, parseCfg cfg with
+    | some sid, some cfg => (assocSet st sid ⟨cfg, {}, {}⟩, "ok")
+    | _, _ => (st, "bad-op")
+  | ["drop", sid] =>
+    match parseNat sid with
+    | some sid => (st.filter (·.1 != sid), "ok")
+    | none => (st, "bad-op")
+  | ["op", sid, op] =>
+    match parseNat sid, parseOp op with
+    | some sid, some op =>
+      match assocGet st sid with
+      | none => (st, "bad-op")
+      | some s =>
+        let (r1, x) := s.reg.step op
+        let (i1, y) := s.impl.runOp s.cfg op
+        (assocSet st sid { s with reg := r1, impl := i1 }, s!"{showRes x} {showRes y}")
+    | _, _ => (st, "bad-op")
+  | ["dump", sid] =>
+    match parseNat sid with
+    | some sid =>
+      match assocGet st sid with
+      | none => (st, "bad-op")
+      | some s => (st, dumpImpl s.impl)
+    | none => (st, "bad-op")
+  | "exec" :: cfg :: sched :: rest =>
+    match parseCfg cfg, (if sched == "-" then some [] else parseNats (sched.splitOn ",")),
+          (splitThreads rest).mapM (fun p => p.mapM parseOp) with
+    | some cfg, some sched, some progs =>
+      let c := finish cfg 1000 ((Conc.start progs).exec cfg sched)
+      let rs := c.threads.map (fun th => ",".intercalate (th.results.map (fun x => (showRes x.2).replace "," ":")))
+      (st, s!"{"|".intercalate rs} # {dumpImpl c.shared}")
+    | _, _, _ => (st, "bad-op")
+  | "check" :: machine :: cfg :: budget :: hops =>
+    match parseCfg cfg, parseNat budget, hops.mapM parseHOp with
+    | some cfg, some budget, some h =>
+      if machine == "reg" then (st, checkHistory regMachine Reg.init h budget)
+      else if machine == "impl" then (st, checkHistory (implMachine cfg) Impl.init h budget)
+      else (st, "bad-op")
+    | _, _, _ => (st, "bad-op")
+  | _ => (st, "bad-op")
 
 end Oracle.C10
